@@ -342,6 +342,40 @@ func checkC01(c *Ctx) {
 		}
 	})
 	c.Obs("combinator_kinds_exercised", kindSeen)
+	// (c) histories: unions built from a caller-owned slice that the caller then reuses for other (far away) operands -
+	// the box reported at construction must still hold what the union evaluates
+	parallelFor(c.Pick(120, 1200), func(i int) {
+		r := c.Rng("alias", i)
+		scale := r.LogR(0.1, 50)
+		var a *aliasCase
+		if i%2 == 0 {
+			a = aliasUnion3(r, scale)
+		} else {
+			a = aliasUnion2(r, scale)
+		}
+		a.scribble()
+		res := probeShape(c, r, a.s2, a.s3, budget/4)
+		// the operands the caller wrote into its slice afterwards lie 40-60 sizes away: look there too
+		if a.s3 != nil {
+			for k := 0; k < 12 && res.witness == nil; k++ {
+				for _, p := range []v3.Vec{{X: scale * (40 + float64(k)), Y: scale * 35, Z: -scale * 30}, {X: -scale * (50 + float64(k)), Y: scale * 45}} {
+					if v := a.s3.Evaluate(p); v < 0 {
+						res.witness = &boxWitness{P: []float64{p.X, p.Y, p.Z}, F: v, Outside: 30 * scale}
+					}
+				}
+			}
+		} else {
+			for k := 0; k < 12 && res.witness == nil; k++ {
+				for _, p := range []v2.Vec{{X: scale * (40 + float64(k)), Y: scale * 35}, {X: -scale * (50 + float64(k)), Y: scale * 45}} {
+					if v := a.s2.Evaluate(p); v < 0 {
+						res.witness = &boxWitness{P: []float64{p.X, p.Y}, F: v, Outside: 30 * scale}
+					}
+				}
+			}
+		}
+		c.Eval(res.probes)
+		judgeBox(c, res, "history", a.desc+" after the caller reused its operand slice", boxOf(a.s2, a.s3), map[string]any{"alias_index": i})
+	})
 	c01Pinned(c)
 	c.Floor(c.Pick(2000, 15000))
 }
